@@ -321,9 +321,10 @@ func c07Directive(t *rapid.T) string {
 	case "secrule", "secaction", "secdefaultaction", "secdataset":
 		return "" // generated by dedicated branches
 	case "secauditlog":
-		return "SecAuditLog " + c07Data + "/" + "audit" + "/" + "audit.log"
+		// a good file, a device that refuses every write, a path below a regular file
+		return "SecAuditLog " + rapid.SampledFrom([]string{c07Data + "/audit/audit.log", c07Data + "/audit/audit.log", "/dev/full", c07Data + "/words.data/audit.log"}).Draw(t, "auditlogpath")
 	case "secauditlogstoragedir":
-		return "SecAuditLogStorageDir " + c07Data + "/" + "audit"
+		return "SecAuditLogStorageDir " + rapid.SampledFrom([]string{c07Data + "/audit", c07Data + "/audit", c07Data + "/words.data/store", "/dev/null/store"}).Draw(t, "auditdirpath")
 	case "secdebuglog":
 		return "SecDebugLog " + c07Data + "/" + "debug.log"
 	case "secuploaddir", "sectmpdir", "secdatadir":
@@ -451,6 +452,15 @@ func genC07(t *rapid.T) *C07Case {
 			lines = append(lines, fmt.Sprintf("SecAction \"id:%d,phase:%d,pass,nolog,ctl:%s\"", 9500+i, rapid.IntRange(1, 5).Draw(t, "limphase"), ctl))
 		}
 		lines = append(lines, "SecRule ARGS|REQUEST_HEADERS \"@rx .\" \"id:9400,phase:2,pass,nolog,tag:'dyn',msg:'dynmsg'\"")
+		if rapid.Bool().Draw(t, "auditfacet") {
+			// every transaction is audited; the log target or the storage directory may be unusable
+			lines = append(lines, "SecAuditEngine On", "SecAuditLogParts ABCFHKZ",
+				"SecAuditLogType "+rapid.SampledFrom([]string{"Concurrent", "Concurrent", "Serial"}).Draw(t, "audittype"),
+				"SecAuditLogFormat "+rapid.SampledFrom([]string{"JSON", "Native"}).Draw(t, "auditformat"),
+				"SecAuditLog "+rapid.SampledFrom([]string{c07Data + "/audit/audit.log", "/dev/full", c07Data + "/words.data/audit.log"}).Draw(t, "facetlog"),
+				"SecAuditLogStorageDir "+rapid.SampledFrom([]string{c07Data + "/audit", c07Data + "/words.data/store", "/dev/null/store"}).Draw(t, "facetdir"),
+				"SecAction \"id:9401,phase:1,pass,log,auditlog,msg:'audited'\"")
+		}
 		c.Limits = true
 	}
 	c.Lines = lines
@@ -636,6 +646,11 @@ func c07Run(c *C07Case) (accepted bool, evaluated int, fail *Failure) {
 		return true, evaluated, f
 	}
 	_, fired, _, f := execScript(w, &c.Req, c.Script)
+	if f == nil {
+		// the same calls again on the same WAF: whatever the first transaction left behind (a recycled object,
+		// a writer in some state) must not make the next one panic or wait for ever
+		_, _, _, f = execScript(w, &c.Req, c.Script)
+	}
 	return true, len(fired), f
 }
 
